@@ -47,7 +47,18 @@ def handleE (line : String) : Except String String := do
     | some ws =>
       -- model: the output is `sortW` of its multiset (C21.isSorted_iff_fixed)
       if !(isSorted ws) then return s!"diff class=unsorted model=sorted impl=out-of-order"
-      return s!"ok {mode} deterministic {if ws.isEmpty then "w0" else "w1+"} constrained"
+      -- coverage tags: warnings that carry multi-element lists (hash-order bugs hide in those)
+      let fromStr (s : Str) : String := String.fromUTF8! ⟨(s.map (fun b => UInt8.ofNat b)).toArray⟩
+      let multi := ws.filter (fun w => w.addresses.length ≥ 2 || w.tids.length ≥ 2 || w.symbols.length ≥ 2 ||
+        w.other.any (fun l => l.length ≥ 2))
+      let names := (multi.map (fun w => fromStr w.name)).eraseDups
+      let listTags := " ".intercalate (names.map (fun n => "list2+:" ++ n))
+      -- CWE416/CWE415 context "Relevant callgraph TIDs: [root, call1, call2, …]" with at least two call TIDs
+      let uafMulti := ws.any (fun w => w.other.any (fun l => l.any (fun e =>
+        let t := fromStr e
+        t.startsWith "Relevant callgraph TIDs:" && (t.splitOn ", ").length ≥ 3)))
+      let uafTag := if uafMulti then " uaf-multi-call-tids" else ""
+      return s!"ok {mode} deterministic {if ws.isEmpty then "w0" else "w1+"} constrained {listTags}{uafTag}"
   | (e0, o0, _) :: rest =>
     let cls :=
       if rest.any (fun r => r.1 != e0) then "exit-status-differs"
